@@ -18,6 +18,10 @@ C = {
          "trusted: TLC, tokio paused clock (verif-hooks); thresholds restricted to quarters so f64 and integer arithmetic agree", 'sim'),
  'C09': ("Observer over real executions: within one observed half-open period the callers that started an inner call and were not cancelled number at most permitted_calls_in_half_open, and further new callers are rejected at once. Executions have 5-16 callers arriving while open/half-open in all poll orders, trial latencies and outcomes from the gated inner service. HalfBound is a TLC invariant of the machine.",
          "trusted: TLC, tokio paused clock; a cancelled trial call hands its slot back (see DESIGN.md 6), so cancelled trials are not counted", 'sim'),
+ 'C08': ("spec/BudgetImpl.tla models try_withdraw/deposit of both budgets one atomic operation at a time; TLC checks Conservation and BalanceLeMax for every interleaving of 3 threads over a grid of budgets (and finds the 4-step counterexample when deposit is load;store). The real budgets run under a controlled scheduler over instrumented atomics (verif-hooks): every interleaving of the atomic steps of 2-3 operations (sampled for 4), with call/return as scheduling points; TLC validates each recorded history for linearizability against the abstract spec/Budget.tla, conservation after every linearization, the ceiling after every atomic step and balance equality at quiescence.",
+         "trusted: TLC; sequentially consistent interleavings (single-location RMW, see DESIGN.md 8); AIMD ceiling abstracted to any value within bounds", 'atomic-step'),
+ 'C13': ("Two halves. Limit bounds: spec/LimitImpl.tla (AIMD and Vegas load/compute/store, Vegas outcome nondeterministic) model-checked for 3 threads over all (min, initial, max, inc, factor); the real Aimd and Vegas run under the atomic-step scheduler and TLC validates min <= limit <= max after every single atomic operation. Service: spec/Adaptive.tla (exact in-flight count, readiness iff in_flight < limit, limit read from the implementation); TLC-generated behaviours and seeded random schedules with drops, panics and readiness probes run in the real AdaptiveService and every trace is validated.",
+         "trusted: TLC, tokio paused clock; the limit dynamics are not specified beyond the bounds", 'atomic-step'),
 }
 def main():
     props = [json.loads(l) for l in open(os.path.join(ROOT, 'properties.jsonl'))]
